@@ -227,6 +227,16 @@ def run(ctx):
                 c = app(path, cyc, g=g_, env=e_, cfg=cfg_, disk=True, kind='%s maxdepth=%d via %s on a cyclic book' % (' '.join(path), depth, src), exact=False)
                 c.meta['style'] = 'deep'
                 cases.append(c)
+    # a failing output under a report of several buffers: an error, never a crash
+    bigbook = g.book(depth=1, exact=True, per_layer=120, unusual=0.1)
+    biglog = g.log(book=bigbook, exact=True, days=60, max_entries=6, unusual=0.1)
+    bigfiles = base_files(g, bigbook, biglog)
+    for path, args, sw in ((['csv', 'database'], (), {}), (['csv', 'database-resolved'], (), {}), (['csv', 'log'], (), {}), (['reg'], (), {}), (['bal'], (), {}), (['print'], (), {}),
+                           (['report', 'totals'], (), {}), (['report', 'element-total'], ('calories',), {}), (['reg'], (), {'singleElement': 'calories', 'csv': True})):
+        for k in (0, 1, 4095, 4096, 4097, 8192, 12288, 20000):
+            c = app(path, bigfiles, args=args, s=sw, sink_fail=k, kind='%s, output fails after %d bytes' % (' '.join(path), k))
+            c.meta['style'] = 'failing sink, large report'
+            cases.append(c)
     impl, model = run_apps(ctx, cases)
     judge(ctx, cases, impl)
     for c in cases:
